@@ -13,7 +13,7 @@ time-out is a violation. Lexer cases additionally compare the stored lexeme leng
 Repeatable constructs are scaled (N, 4N) to observe time out of proportion and unbounded recursion."""
 import copy, glob, json, os, random, re
 import xml.etree.ElementTree as ET
-import vf, docgen, xmlgen, lrconf
+import vf, docgen, xmlgen, lrconf, readerconf
 
 EXPR_ALPHA = [("T_ID", 0, "i"), ("T_NAT", 1, ""), ("'('", 0, ""), ("')'", 0, ""), ("'['", 0, ""), ("']'", 0, ""), ("','", 0, ""), ("T_PLUS", 0, ""),
               ("T_LT", 0, ""), ("'?'", 0, ""), ("':'", 0, ""), ("T_EXCLAM", 0, ""), ("T_ASSIGNMENT", 0, ""), ("T_FORALL", 0, ""), ("T_INT", 0, ""), ("T_ERROR", 0, ""),
@@ -317,6 +317,25 @@ def run(tier):
                 k = "c01:scale:%s:%s:N=%d" % (key, "stack-overflow" if stack_overflow else bad, rep["N"]) if rep["N"] >= 40000 else "c01:scale:%s:%s:N=%d" % (key, bad, rep["N"])
             c.finding(k, "%s with the %s back end on %s input %s: %s at %s" % (bad, rep.get("backend"), kind, json.dumps({x: rep[x] for x in rep if x not in ("xml", "backend")})[:200], bad, site),
                       dict(rep, job={x: j[x] for x in j if x not in ("id",)}, stderr=(r.get("stderr") or r.get("sanitizer") or "")[:2500]))
+    # ---- 6. XmlReader.tla: the transcribed reader vs the real one on the base document and every single structural mutation
+    rc = readerconf.run(c, quick)
+    ndrift = 0
+    for x in rc:
+        counts["reader"] = counts.get("reader", 0) + 1
+        if x["real_outcome"].startswith("crash"):
+            r = x["result"]
+            c.finding("c01:reader:%s:%s" % (x["what"].split(" ")[0], san_site(r)), "the XML reader %s on a document with the mutation [%s] (whitespace nodes: %s); XmlReader.tla predicts %s" % (
+                x["real_outcome"], x["what"], x["ws"], x["spec_outcome"]), {"xml": x["xml"], "mutation": x["what"], "stderr": (r.get("stderr") or "")[:2000], "job": {"entry": "xml_buffer", "text": x["xml"]}})
+        elif not x["terminates"]:
+            print("NOTE property=C01 XmlReader.tla: the transcribed reader does not terminate on mutation [%s] but the real reader ended with %s" % (x["what"], x["real_outcome"]))
+        if not x["agree"]:
+            ndrift += 1
+            if ndrift <= 3:
+                k = next((i for i, (a, b) in enumerate(zip(x["spec"], x["real"])) if a != b), min(len(x["spec"]), len(x["real"])))
+                print("DRIFT property=C01 XmlReader.tla and the real reader disagree on mutation [%s] (ws=%s): outcome %s vs %s; first difference at event %d: %s vs %s" % (
+                    x["what"], x["ws"], x["spec_outcome"], x["real_outcome"], k, x["spec"][k:k + 1], x["real"][k:k + 1]))
+    c.cov["reader_documents"] = len(rc)
+    c.cov["reader_spec_impl_disagreements"] = ndrift
     # lexer expectations (plain lexer/parser conformance: stored length and diagnostic)
     lres = vf.run_jobs([j for _, j in lexjobs], c.run_dir, variant="asan", harness="lr_replay", name="lex")
     nlex = 0
